@@ -256,6 +256,12 @@ def exec_for(I, st, node):
         if isinstance(it, Exc):
             yield st1, ("raise", it.exc)
             continue
+        if it is None or isinstance(it, (bool, int)):
+            # for ... in None / in a number: TypeError
+            from .ops import exc as _exc
+
+            yield st1, ("raise", _exc("TypeError", "'%s' object is not iterable" % ("NoneType" if it is None else type(it).__name__)).exc)
+            continue
         sym = symbolic_iter(I, st1, it)
         if sym is None:
             items = I.iterate(it, st1)
